@@ -154,7 +154,9 @@ func (s *c05Setup) apply(in []byte, f c05Fault, pristine bool) []byte {
 			return own(i)
 		})
 	case "insert-byte":
-		out = append(append(append([]byte{}, in[:f.A]...), byte(f.B)), in[f.A:]...)
+		if f.A <= len(in) {
+			out = append(append(append([]byte{}, in[:f.A]...), byte(f.B)), in[f.A:]...)
+		}
 	case "drop-byte":
 		if f.A < len(in) {
 			out = append(append([]byte{}, in[:f.A]...), in[f.A+1:]...)
